@@ -88,7 +88,14 @@ def run(ctx, report):
     # "each caption ends exactly when the next one begins": the list the captions are stored in
     from . import scc_timing_list
     report.section("caption list timing", scc_timing_list.run, ctx, report, "3")
-    report.not_decided += ["that each transmitted character appears exactly once and in order",
+    from . import scc_e2e_fold
+    report.section("end to end", scc_e2e_fold.run_part, ctx, report, "rolling", {
+        "once": ("R-E2E", "1", "every transmitted row comes back exactly once, whole, in transmission order (roll-up 2/3/4 and "
+                               "paint-on; single and doubled codes, also with a line break inside a doubled pair; from 00:00:00)"),
+        "order": ("R-E2E", "3", "captions are ordered by start, each with start < end"),
+        "chain": ("R-E2E", "3", "each caption ends exactly when the next one begins"),
+    })
+    report.not_decided += ["that each transmitted character appears exactly once and in order beyond the generated programs",
                            "row grouping, start < end for arbitrary streams"]
 
 
